@@ -14,6 +14,15 @@ def run_twh(bdir, args, timeout=120, binary="twh"):
         return -9, "timeout"
 
 
+def hook_points():
+    """numeric values of enum verif_point in the tree under test"""
+    import re
+    t = open(os.path.join(vlib.REPO, "src", "verif", "hooks.h")).read()
+    m = re.search(r"enum verif_point \{(.*?)\};", t, re.S)
+    names = [x.strip().split("=")[0].strip() for x in re.sub(r"//.*", "", m.group(1)).split(",") if x.strip()]
+    return {n: i for i, n in enumerate(names)}
+
+
 def cfg_args(c):
     a = ["--threads", c.get("threads", 2), "--ckpt", c.get("ckpt", 0), "--batch", c.get("batch", 1),
          "--gvt-period", c.get("period", 0), "--seed", c.get("sseed", 1), "--switch", c.get("switch", "1/4"),
@@ -296,7 +305,7 @@ class Campaign:
                     sig.update(("%s,%s,%s;" % (e.get("thr"), e.get("e"), e.get("m", e.get("lp", "")))).encode())
             return (sig.hexdigest(), tr, c, rc)
 
-        cfg_rs = [one(i) for i in range(nruns)] if False else vlib.pmap(one, list(range(nruns)))
+        cfg_rs = vlib.pmap(one, list(range(nruns)))
         distinct = {}
         for x in cfg_rs:
             if x and x[0] not in distinct:
@@ -304,11 +313,15 @@ class Campaign:
         runs = list(distinct.values())
         self.stats["micro_runs"] = self.stats.get("micro_runs", 0) + nruns
         self.stats["micro_distinct"] = self.stats.get("micro_distinct", 0) + len(runs)
+        self._validate_concat(md, runs, "micro_" + name)
+
+    def _validate_concat(self, md, runs, mname):
+        """runs: [(signature, trace, cfg, rc)] of one model; validated in chunks (traces concatenated with Reset lines) by TimeWarpTrace"""
         chunks = [runs[i:i + 40] for i in range(0, len(runs), 40)]
 
         def val(chunk_i):
             k, chunk = chunk_i
-            cat = os.path.join(md["dir"], "cat_%d.ndjson" % k)
+            cat = os.path.join(md["dir"], "cat_%s_%d.ndjson" % (mname, k))
             offs = []
             with open(cat, "w") as f:
                 n = 0
@@ -337,13 +350,13 @@ class Campaign:
                         b = cand
                         break
                 which = [o for o in offs if o[0] <= b["at"]][-1]
-                rec = {"property": b["p"], "what": b["w"], "line": b["at"] - which[0] + 1, "cfg": which[2], "model": ("micro_" + name, 0),
+                rec = {"property": b["p"], "what": b["w"], "line": b["at"] - which[0] + 1, "cfg": which[2], "model": (mname, 0),
                        "trace": which[1], "md": md}
                 if b["p"] == "C08" and classify_hang(which[1]):
                     hc = classify_hang(which[1])
                     f = [f for f in self.kf.get("findings", []) if f.get("key") == hc]
                     if f:
-                        self.known.append({"finding": f[0], "cfg": which[2], "model": ("micro_" + name, 0)})
+                        self.known.append({"finding": f[0], "cfg": which[2], "model": (mname, 0)})
                         continue
                 if b["p"] == "DIV":
                     self.machinery.append(rec)
@@ -353,7 +366,63 @@ class Campaign:
                     self.other.append(rec)
             else:
                 self.machinery.append({"property": "?", "what": "micro-model trace %s: %s" % (v["verdict"], (v.get("error") or json.dumps(v.get("res")))[:300]),
-                                       "model": ("micro_" + name, 0)})
+                                       "model": (mname, 0)})
+
+    # -------------------------------------------------------------- behaviours of the specification replayed in the real code
+    KIND = {"Push": "VP_Q_PUSH", "Drain": "VP_Q_DRAIN", "Flag": "VP_FLAG", "AntiLocal": "VP_ANTI_LOCAL", "Undo": "VP_UNDO"}
+
+    def replay_phase(self, name, spec, cfg, n, ranks=0, threads=2, exhaustive=False, ckpt=1, sim_num=80):
+        """TLC generates behaviours of TimeWarpMC on a micro-model (all of them, or a random sample in simulation mode) as the order of the
+        accesses to shared memory; each one is imposed on the real code by the cooperative scheduler (--guide): the thread whose turn it is
+        runs until it reports the expected access.  Counted: behaviours the code followed to the end; every resulting trace is validated by
+        TimeWarpTrace like any other run.  A behaviour the code cannot follow is a divergence between specification and code (reported in the
+        evidence, and as a machinery failure when more than a tenth of the sample diverges), not a verdict on a property."""
+        import re as _re
+        md = self.prepare_model("micro_" + name, 0)
+        self.stats["models"] += 1
+        if not md["ok"]:
+            self.machinery.append({"property": "C10", "what": md["why"], "model": ("micro_" + name, 0)})
+            return
+        base = open(os.path.join(vlib.SPEC, cfg)).read().replace("RecordSched = FALSE", "RecordSched = TRUE").split("\n")
+        tmp = os.path.join(self.scr, "sched_%s.cfg" % name)
+        open(tmp, "w").write("\n".join([x for x in base if not x.startswith("INVARIANT")] + ["INVARIANT EmitSched", "INVARIANT NoCheckFails"]) + "\n")
+        if exhaustive:
+            r = vlib.tlc(spec, tmp, extra=["-noGenerateSpecTE"], workers=8, timeout=3000, heap="12g")
+        else:
+            r = vlib.tlc(spec, tmp, extra=["-noGenerateSpecTE", "-seed", str(self.seed + 11)], workers=4, timeout=900, heap="4g", simulate=sim_num, depth=600)
+        scheds = sorted(set(_re.findall(r'"SCHED", "(.*?)">>', r["out"])))
+        if not scheds:
+            self.machinery.append({"property": self.pid, "what": "no behaviour generated by TLC for %s/%s: %s" % (spec, cfg, r["error"] or r["out"][-300:])})
+            return
+        random.Random(self.seed * 5 + 1).shuffle(scheds)
+        total = len(scheds)
+        scheds = scheds[:n]
+        pts = hook_points()
+        kind = {k: pts[v] for k, v in self.KIND.items()}
+        kind.update({"NetSend": 100, "NetRecv": 101})
+
+        def one(i):
+            js = json.loads(scheds[i].replace('\\"', '"'))
+            g = os.path.join(md["dir"], "guide_%d.txt" % i)
+            open(g, "w").write("".join("%d %d\n" % (t, kind[k]) for t, k in js))
+            c = {"threads": threads, "ckpt": ckpt, "batch": 1, "period": 100000, "sseed": self.seed * 1000 + i, "switch": "1/2", "policy": 0}
+            if ranks:
+                c.update({"ranks": ranks, "net": 1})
+            tr = os.path.join(md["dir"], "rep_%d.ndjson" % i)
+            rc, out = run_twh(self.bdir, ["--model", md["txt"], "--out", tr, "--guide", g] + cfg_args(c), binary="twd" if ranks else "twh")
+            m = _re.search(r"GUIDE status=(\d) pos=(\d+) len=(\d+) ?(.*)", out)
+            return (str(i), tr, c, rc, int(m.group(1)) if m else -1, m.group(4) if m else out[-200:], len(js))
+
+        res = vlib.pmap(one, list(range(len(scheds))))
+        followed = [x for x in res if x[4] == 1]
+        st = self.stats.setdefault("replay", [])
+        st.append({"micro_model": name, "spec": spec, "cfg": cfg, "behaviours_generated_by_tlc": total, "exhaustive_enumeration": bool(exhaustive),
+                   "replayed_in_real_code": len(res), "followed_to_the_end": len(followed), "diverged": len(res) - len(followed),
+                   "first_divergence": next((x[5] for x in res if x[4] != 1), ""), "shared_accesses_per_behaviour_max": max(x[6] for x in res)})
+        if len(res) - len(followed) > max(1, len(res) // 10):
+            self.machinery.append({"property": self.pid, "what": "the real code could not follow %d of %d behaviours of %s (%s)" % (
+                len(res) - len(followed), len(res), spec, next((x[5] for x in res if x[4] != 1), ""))})
+        self._validate_concat(md, [(x[0], x[1], x[2], x[3]) for x in res if x[3] in (0, 4) and os.path.exists(x[1])], "replay_" + name)
 
     # -------------------------------------------------------------- component drivers (same build)
     def driver_phase(self, runs):
@@ -481,6 +550,7 @@ class Campaign:
                "known_finding_hits": len(self.known), "other_property_failures": len(self.other),
                "driver_lines_validated": self.stats.get("driver_lines", 0), "conformance_divergences": self.stats.get("divergences", 0),
                "model_checking_runs": self.stats.get("mc", []), "model_checking_reachability_probes": self.stats.get("mc_probes", []),
+               "tlc_behaviours_replayed_in_real_code": self.stats.get("replay", []),
                "conformance_divergence_kinds": self.stats.get("divergence_kinds", {}),
                "micro_model_runs_on_real_code": self.stats.get("micro_runs", 0), "micro_model_distinct_interleavings": self.stats.get("micro_distinct", 0),
                "exhaustive": False}
